@@ -36,6 +36,7 @@ var c15DocExamples = []c15DocExample{
 	{"{|a b| put $a $b } foo", nil, "arity"},
 	{"{|a b @rest| put $a $b $rest } foo", nil, "arity"},
 	{"{|&k=v| put $k } &k2=v2", nil, "unknown-option"},
+	{"var f = {|a @r b &o=d &p=[x]| put $a }\nput $f[arg-names] $f[opt-names] $f[opt-defaults]", []string{"[a r b]", "[o p]", "[d [x]]"}, ""},
 	// Scoping, closures
 	{"var x = 12\n{ put $x }", []string{"12"}, ""},
 	{"put $nonexistent", nil, "compile-error"},
@@ -119,7 +120,7 @@ var c15DocExamples = []c15DocExample{
 	{"fn f { fail bad }\nfail ?(f)", nil, "fail:bad"},
 	{"return", nil, "flow:return"},
 	// stream
-	{"all [foo [lorem ipsum]]", []string{"foo", "[lorem ipsum]"}, ""},
+	{"all [foo [lorem ipsum]]\nall foo", []string{"foo", "[lorem ipsum]", "f", "o", "o"}, ""},
 	{"fn f { var inputs = [(all)]; put $inputs[1] }\nput foo bar baz | f", []string{"bar"}, ""},
 	{"range 2 | take 10", []string{"(num 0)", "(num 1)"}, ""},
 	{"take 3 [a b c d e]", []string{"a", "b", "c"}, ""},
